@@ -130,6 +130,7 @@ func (fea *ForEachOp) CloneWith(ctx ActionContext) Action {
 	cp.Glob = fea.Glob
 	cp.Item = fea.Item
 	cp.Query = fea.Query
-	cp.Action = ActionSpec{}.CloneWith(ctx).(ActionSpec)
+	cp.Action = fea.Action.CloneWith(ctx).(ActionSpec)
+	cp.Variable = fea.Variable
 	return cp
 }
